@@ -18,6 +18,7 @@ def setup_symbolic():
     for name in TLEXPORT_MODULES:
         m = importlib.import_module(name)
         shims.install(m)
+        shims.install_addr_shims(m)
         mods[name] = m
     mods["tlexport.packet"].dpkt = dpkt_model.namespace()
     return mods
